@@ -5,6 +5,7 @@ import (
 	"go/ast"
 	"go/token"
 	"go/types"
+	"strings"
 )
 
 func (e *Exec) execBlock(stmts []ast.Stmt, st *State, ctx *Ctx, k func(*State)) {
@@ -257,6 +258,9 @@ func (e *Exec) assignTo(lhs ast.Expr, val string, st *State, ctx *Ctx) {
 		if _, local := st.env[v]; !local && v.Parent() == v.Pkg().Scope() {
 			e.unsupported(l.Pos(), "assignment to package-level variable %s", l.Name)
 		}
+		if isTreeMap(v.Type()) {
+			st.nonNil[v] = strings.HasPrefix(val, "(VMap ")
+		}
 		// keep terms small: bind large values to a fresh constant
 		if len(val) > 160 {
 			c := e.fresh(st, v.Name(), sortOf(v.Type()))
@@ -270,8 +274,18 @@ func (e *Exec) assignTo(lhs ast.Expr, val string, st *State, ctx *Ctx) {
 		case isTreeMap(t):
 			m := e.eval(l.X, st, ctx)
 			kx := e.eval(l.Index, st, ctx)
-			e.nopanic(st, l.Pos(), "nil-map-write", "((_ is VMap) "+m+")", exprString(l.X)+"[…] = …")
+			if _, isField := l.X.(*ast.SelectorExpr); isField {
+				e.note("map-typed struct fields that are written through are assumed non-nil (EvalContext.Vars is created by envVars/maps.Clone)")
+				st.assume("((_ is VMap) " + m + ")")
+			} else {
+				e.nopanic(st, l.Pos(), "nil-map-write", "((_ is VMap) "+m+")", exprString(l.X)+"[…] = …")
+			}
 			e.assignTo(l.X, "(VMap (store (mapOf "+m+") "+kx+" "+val+"))", st, ctx)
+			if id, ok := l.X.(*ast.Ident); ok {
+				if v, ok := info.ObjectOf(id).(*types.Var); ok {
+					st.nonNil[v] = true
+				}
+			}
 		case isRefMap(t):
 			m := e.eval(l.X, st, ctx)
 			kx := e.eval(l.Index, st, ctx)
